@@ -24,3 +24,70 @@ package json
 //@   writes bytes.Buffer b
 //@   ensures[C15] marked_rejected: (=> (is_marked val) (not (= result nil.Any)))
 //@   ensures[C15] unknown_rejected: (=> (not (is_known val)) (not (= result nil.Any)))
+//
+// Decoder side (C17): every result of encoding/json's Decoder (Token, More, Decode) is unconstrained -
+// that is how "every byte string" is rendered - and under that assumption no panic is reachable and a
+// nil error implies a well-formed value whose type conforms to the requested type.
+//@ func json.unmarshal
+//@   tags C17
+//@   borrows path
+//@   requires (and (wf_ty t) (not (has_opt t)))
+//@   ensures[C17] ok: (=> (= result.1 nil.Any) (decoded_ok result.0 t))
+//
+//@ func json.unmarshalPrimitive
+//@   tags C17
+//@   borrows path
+//@   requires (and (is_prim_ty t) (wf_ty t))
+//@   ensures[C17] ok: (=> (= result.1 nil.Any) (decoded_ok result.0 t))
+//
+//@ func json.unmarshalList
+//@   tags C17
+//@   borrows path
+//@   requires (and (wf_ty ety) (not (has_opt ety)))
+//@   ensures[C17] ok: (=> (= result.1 nil.Any) (decoded_ok result.0 (ty_list ety)))
+//@   loop 1 invariant (and (slice.ok vals) (<= (Slice.ptr vals) 0) (= (Slice.off vals) 0))
+//@   loop 1 invariant (forall ((j Int)) (! (=> (and (trig j) (<= 0 j) (< j (Slice.len vals))) (decoded_ok (hval_at $H<Arr<cty.Value>> vals j) ety)) :pattern ((trig j))))
+//
+//@ func json.unmarshalSet
+//@   tags C17
+//@   borrows path
+//@   requires (and (wf_ty ety) (not (has_opt ety)))
+//@   ensures[C17] ok: (=> (= result.1 nil.Any) (decoded_ok result.0 (ty_set ety)))
+//@   loop 1 invariant (and (slice.ok vals) (<= (Slice.ptr vals) 0) (= (Slice.off vals) 0))
+//@   loop 1 invariant (forall ((j Int)) (! (=> (and (trig j) (<= 0 j) (< j (Slice.len vals))) (decoded_ok (hval_at $H<Arr<cty.Value>> vals j) ety)) :pattern ((trig j))))
+//
+//@ func json.unmarshalMap
+//@   tags C17
+//@   borrows path
+//@   requires (and (wf_ty ety) (not (has_opt ety)))
+//@   ensures[C17] ok: (=> (= result.1 nil.Any) (decoded_ok result.0 (ty_map ety)))
+//@   let vm (select $H<MapC<String~cty.Value>> vals)
+//@   loop 1 invariant (and (< vals 0) (MapC<String~cty.Value>.ok vm))
+//@   loop 1 invariant (forall ((k String)) (! (=> (select (MapC<String~cty.Value>.dom vm) k) (decoded_ok (select (MapC<String~cty.Value>.val vm) k) ety)) :pattern ((select (MapC<String~cty.Value>.dom vm) k))))
+//
+// Not under contract yet (assumed to return an error or a conforming, well-formed value): the object,
+// dynamic and capsule decoders.
+//@ func json.unmarshalObject
+//@   trusted
+//@   borrows path
+//@   ensures (=> (= result.1 nil.Any) (decoded_ok result.0 (mk.cty.Type (box<cty.typeObject> (mk.cty.typeObject mk.cty.typeImplSigil atys 0)))))
+//
+//@ func json.unmarshalDynamic
+//@   trusted
+//@   borrows path
+//@   ensures (=> (= result.1 nil.Any) (decoded_ok result.0 $G<cty.DynamicPseudoType>))
+//
+//@ func json.unmarshalCapsule
+//@   trusted
+//@   borrows path
+//@   ensures (=> (= result.1 nil.Any) (decoded_ok result.0 t))
+//
+// Token-level helpers around encoding/json: results unconstrained, no effect on cty data (assumed).
+//@ func json.requireDelim
+//@   trusted
+//@ func json.requireObjectKey
+//@   trusted
+//@ func json.readRawValue
+//@   trusted
+//@ func json.bufDecoder
+//@   trusted
